@@ -283,6 +283,7 @@ func (vr *VerifiableReader) readAndCache(id uint32, fr io.Reader, chunkOffset, c
 			w.Abort()
 			return err
 		}
+		verifhook.Point("reader.readAndCache.inRLock", vr)
 		vr.storeLastVerifyErr(err)
 		vr.prohibitVerifyFailureMu.RUnlock()
 		verifhook.Point("reader.readAndCache.storedErr", vr)
